@@ -45,6 +45,20 @@ CLAIMED = {
             "exponential baseline) are enumerated by TLC with exact loss and gradient values and replayed into REINFORCE.calculate_loss, "
             "A2C, POMO.shared_step, SymNCO losses and PPO.shared_step; loss and the gradients reaching log-likelihoods / critic outputs "
             "are compared."),
+    "C11": ("model_checking", "6", "Decode.tla.tmpl machine D (decoding protocol x env model x table policy), TLC exhaustive; real ConstructivePolicy with stub decoder compared behaviour by behaviour; DecodeTrace.tla on neural policies",
+            "TLC enumerates every behaviour of the decoding protocol (greedy, sampling, multistart_*, evaluate) over the TSP and CVRP "
+            "models with an explicit table policy and exact per-step probabilities; the table is plugged into the real "
+            "ConstructivePolicy as a stub decoder and every real row must be a specification behaviour with the same per-step "
+            "log-probabilities and reward, every specification behaviour is fed back through actions= (evaluate). Bundled neural "
+            "policies are validated per step by DecodeTrace.tla against an independent float64 reference loop."),
+    "C13": ("model_checking", "6", "Decode.tla.tmpl machine B (beam search over env model with table policy), TLC exhaustive over tie-breaks; real BeamSearch compared beam set by beam set",
+            "TLC explores beam search (any top-W subset at every step, exact rational scores) over the TSP/CVRP models with invariants "
+            "complete+feasible, distinct, W beams; the real BeamSearch with the same table policy must return one of the allowed "
+            "beam sets with each beam's own per-step log-probabilities and reward, and select_best the maximum of the instance's beams."),
+    "C17": ("model_checking", "6", "Loader.tla (loader order, partial batches, extra values via evaluation batches), TLC exhaustive; replay + LoaderTrace.tla on real dataset classes / DataLoader / RolloutBaseline",
+            "All (n, batch size, evaluation batch size, loader order) of a small scope are model-checked (no loss/duplication, extra of its "
+            "own item, batch sizes); unshuffled behaviours are replayed through the real dataset classes wrapped by RolloutBaseline; "
+            "recorded passes (all classes, shuffle, extra key, RL4COLitModule._dataloader_single) are validated by LoaderTrace.tla."),
 }
 PROTO_NOTE = ("Trusted base: TLC 1.8.0; the TLA+ protocol specifications under spec/decode, spec/train; float tolerances stated in the "
               "trace specifications; small-scope hypothesis.")
